@@ -16,8 +16,10 @@
   The theorems hold for every dimension `m` (vector-level statements go through the loop structure of the
   C code: scalar loops, 4-lane do-while loops, 8-lane loops, the 8-complex shuffle networks of the cplx
   kernels), every element index, every divisor exponent `j` for which the table constants are finite
-  doubles, every `log2overhead ≤ 48`, and every input pattern in the stated magnitude domain (no finiteness
-  hypothesis is needed: the magnitude bound excludes inf/nan patterns).
+  doubles, every `log2overhead ≤ 48`, and every input pattern in the stated magnitude domain.  Inf/NaN
+  patterns are not modelled by `Spq.F64`: the magnitude bound excludes them wherever `B·2^j ≤ 2^1024` (bnd50, bnd63, wide,
+  to_tnx, cplx_to_tnx32: j ≤ 971 / 961 / 900); `to_znx64_ref` and `to_tnx_basic_ref_partial`, whose divisor range is wider,
+  carry an explicit finiteness hypothesis.
 -/
 import SpqProofs.Lemmas.ConvVec
 import SpqProofs.Lemmas.ConvToTnx32
@@ -77,6 +79,7 @@ example : ∃ x : Array Int, -1125899906842624 < x.getD 1 0 ∧ x.getD 1 0 < 112
 
 /-- `reim_to_znx64_ref` (`(int64_t)rint(x * (1/d))`): for |x/d| < 2^63 (contains the documented 2^52) -/
 theorem to_znx64_ref (m : Nat) (j : Int) (hj1 : -1022 ≤ j) (hj2 : j ≤ 1022) (x : Array Nat) (i : Nat) (hi : i < 2 * m)
+    (_hfin : F64.isFinite (x.getD i 0) = true)   -- Inf/NaN patterns are not modelled (for j ≥ 962 the magnitude bound alone admits them)
     (hdom : MagLt (x.getD i 0) (pow2 j) 9223372036854775808) :
     ∃ r, (toZnx64Ref m (pow2 j) x)[i]? = some r ∧ Within r (x.getD i 0) (pow2 j) := by
   refine ⟨_, scalarLoop_getElem? _ _ i hi, ?_⟩
@@ -267,6 +270,7 @@ theorem to_tnx_ref_eq_avx (p : ToTnxPrecomp) (x : Array Nat) (hdiv : (2 * p.m) %
    inside the tolerance) — that last rounding is not covered. -/
 theorem to_tnx_basic_ref_partial (m : Nat) (j : Int) (hj1 : -1022 ≤ j) (hj2 : j ≤ 1023) (x : Array Nat) (i : Nat)
     (hi : i < 2 * m)
+    (_hfin : F64.isFinite (x.getD i 0) = true)   -- Inf/NaN patterns are not modelled (for j ≥ 25 the magnitude bound alone admits them)
     (hnz : toScaled (x.getD i 0) = 0 ∨ toScaled (pow2 j) ≤ |toScaled (x.getD i 0)| * 2 ^ 1022)
     (hdom : |toScaled (x.getD i 0)| < 2 ^ 1000 * toScaled (pow2 j)) :
     ∃ r, (toTnxBasicRef m (pow2 j) x)[i]? = some r ∧
